@@ -139,8 +139,9 @@ func lexTables() map[string]interface{} {
 }
 
 // canonOf flattens a tokenizer result exactly like Model/Lexer.v [canon]:
-//   success: 0 ntok (type quote sl sc el ec len bytes...)* ncom (style inline sl sc el ec len bytes...)*
-//   error:   1 code line col
+//
+//	success: 0 ntok (type quote sl sc el ec len bytes...)* ncom (style inline sl sc el ec len bytes...)*
+//	error:   1 code line col
 func canonOf(toks []models.TokenWithSpan, comments []models.Comment, err error) []int {
 	if err != nil {
 		ei := infoOf(err)
@@ -194,6 +195,21 @@ type lexOut struct {
 
 var lexWantDumps bool
 
+var lexPriorN int
+var lexPriors = []string{
+	"SELECT 'x' -- c\n/* d */ FROM \"t\"",
+	"SELECT 'abc",
+	"SELECT 'a\\q' FROM t",
+	"SELECT 'ends with backslash\\",
+	"SELECT \"unterminated ident",
+	"SELECT $tag$ abc",
+	"SELECT 1 /* open comment",
+	"SELECT `back",
+	"SELECT 1e FROM t",
+	"SELECT '''triple",
+	"SELECT N'nat",
+}
+
 func lexOne(in []byte, doParse bool) lexOut {
 	var o lexOut
 	var toks []models.TokenWithSpan
@@ -207,7 +223,10 @@ func lexOne(in []byte, doParse bool) lexOut {
 		o.CtxSame = eqInts(o.C, canonOf(toks2, tk2.Comments, err2))
 		// a pooled, previously used instance must read the text the same way
 		tk3 := tokenizer.GetTokenizer()
-		_, _ = tk3.Tokenize([]byte("SELECT 'x' -- c\n/* d */ FROM \"t\""))
+		// the earlier use is a successful run or a run that failed inside a literal, a quoted identifier, a dollar
+		// string, a comment, an escape or a number (whatever a failed run leaves behind must not leak into this one)
+		lexPriorN++
+		_, _ = tk3.Tokenize([]byte(lexPriors[lexPriorN%len(lexPriors)]))
 		toks3, err3 := tk3.Tokenize(in)
 		o.Pooled = eqInts(o.C, canonOf(toks3, tk3.Comments, err3))
 		tokenizer.PutTokenizer(tk3)
